@@ -461,7 +461,7 @@ def run_real(w, limit=10000):
         sols = []
         for x in s.solve():
             sols.append([int(v) for v in x])
-            if len(sols) > limit:
+            if len(sols) > limit or (w.get("partial") is not None and len(sols) >= w["partial"]):
                 break
         return sols, s.get_statistics()
     best = s.minimize(w["objective"]) if mode == "minimize" else s.maximize(w["objective"])
@@ -544,7 +544,248 @@ def validate_solve(w):
     return ok, f"real: solutions={sols} stats={stats}"
 
 
-HANDLERS = {"prop": replay_prop, "heur": replay_heur, "split": replay_split, "reducer": replay_reducer, "stack": replay_stack, "solve": replay_solve}
+def replay_varheur(r):
+    import nucs.heuristics.heuristics as H
+
+    doms = r["doms"]
+    stack = np.zeros((3, len(doms), 2), dtype=np.int32)
+    stack[r["top"]] = doms
+    params = np.array(r["costs"], dtype=np.int64) if "costs" in r else np.array([[]], dtype=np.int64)
+    fn = H.VAR_HEURISTIC_FCTS[getattr(H, "VAR_HEURISTIC_" + r["site"].upper())]
+    res = int(fn(params, np.array(r["decision"], dtype=np.uint16), stack, np.array([r["top"]], dtype=np.uint8)))
+    free = [d for d in r["decision"] if doms[d][0] < doms[d][1]]
+    if r["kind"] == "no-variable-selected-although-one-is-free":
+        return bool(free) and res not in free, f"returned {res}, free decision domains {free}"
+    return (not free) and res != -1, f"returned {res}"
+
+
+def replay_lemma(r):
+    import nucs.propagators.propagators as P
+
+    lemma, kind = r["lemma"], r["kind"]
+    if lemma in ("trigger", "mono"):
+        alg, box, box2, params = r["alg"], r["box"], r["box2"], r["params"]
+        st, out = real_prop(alg, box, params)
+        st2, out2 = real_prop(alg, box2, params)
+        info = f"p(B)=({st},{out}) p(B')=({st2},{out2})"
+        sub = all(b[0] <= c[0] <= c[1] <= b[1] for b, c in zip(box, box2))
+        if lemma == "mono":
+            if kind == "fails-on-box-but-not-on-sub-box":
+                return sub and st == 0 and st2 != 0, info
+            return sub and st != 0 and st2 != 0 and any(o2[0] < o[0] or o2[1] > o[1] for o, o2 in zip(out, out2)), info
+        ai = getattr(P, "ALG_" + alg.upper())
+        mask = [int(x) for x in P.GET_TRIGGERS_FCTS[ai](len(box), np.array(params, dtype=np.int32))]
+        unwatched_only = sub
+        for m, b, c in zip(mask, box, box2):
+            if (m & 1 and c[0] != b[0]) or (m & 2 and c[1] != b[1]) or (m & 4 and c[0] == c[1] and b[0] != b[1]):
+                unwatched_only = False
+        stable = st != 0 and out == box
+        info += f" mask={mask} only-unwatched-bounds-moved={unwatched_only} stable-on-B={stable}"
+        if kind == "unwatched-bound-change-makes-it-fail":
+            return unwatched_only and stable and st2 == 0, info
+        if alg == "no_sub_cycle":
+            ch = any(c[0] == c[1] and o != c for c, o in zip(box2, out2))
+        else:
+            ch = st2 != 0 and out2 != box2
+        return unwatched_only and stable and ch, info
+    if lemma == "transl":
+        alg, box, params, c = r["alg"], r["box"], r["params"], r["c"]
+        n = len(box)
+        if alg in ("affine_eq", "affine_leq", "affine_geq"):
+            p2 = params[:-1] + [params[-1] + c * sum(params[:-1])]
+        elif alg == "relation":
+            p2 = [p + c for p in params]
+        elif alg == "exactly_eq":
+            p2 = [params[0] + c, params[1]]
+        elif alg == "gcc":
+            p2 = [params[0] + c] + params[1:]
+        else:
+            p2 = params
+        st, out = real_prop(alg, box, params)
+        st2, out2 = real_prop(alg, [[a + c, b + c] for a, b in box], p2)
+        info = f"p(B)=({st},{out}) p(B+c)=({st2},{out2})"
+        if kind == "status-changes-under-translation":
+            return st != st2, info
+        return st == st2 and st != 0 and out2 != [[a + c, b + c] for a, b in out], info
+    if lemma == "init":
+        pb, kw, _ = build_real(r)
+        posted = list(pb.propagators)
+        pb.init()
+        fails = set()
+        for q, prop in enumerate(pb.propagators):
+            pv, alg, params = prop
+            vs, ve = int(pb.var_bounds[q, 0]), int(pb.var_bounds[q, 1])
+            ps, pe = int(pb.param_bounds[q, 0]), int(pb.param_bounds[q, 1])
+            if ve - vs != len(pv) or pe - ps != len(params) or int(pb.algorithms[q]) != alg:
+                fails.add("bounds-or-algorithm-mismatch")
+                continue
+            if [int(x) for x in pb.props_dom_indices[vs:ve]] != [r["dom_indices"][v] for v in pv] or [int(x) for x in pb.props_dom_offsets[vs:ve, 0]] != [r["offsets"][v] for v in pv] or [int(x) for x in pb.props_parameters[ps:pe]] != list(params):
+                fails.add("flattened-slices-differ-from-posted-data")
+            declared = P.GET_TRIGGERS_FCTS[alg](len(pv), np.array(params, dtype=np.int32))
+            want = {}
+            for k, v in enumerate(pv):
+                d = r["dom_indices"][v]
+                want[d] = want.get(d, 0) | int(declared[k])
+            for d in range(len(r["doms"])):
+                if int(pb.triggers[d, q]) != want.get(d, 0):
+                    fails.add("trigger-mask-is-not-the-union-of-declared-masks")
+        snap = {k: getattr(pb, k).copy() for k in ("algorithms", "var_bounds", "param_bounds", "props_dom_indices", "props_dom_offsets", "props_parameters", "triggers")}
+        pb.init()
+        if any(a.shape != getattr(pb, k).shape or (a != getattr(pb, k)).any() for k, a in snap.items()):
+            fails.add("second-init-differs")
+        return kind in fails, f"failures={sorted(fails)}"
+    return False, "advisory lemma: no public-API scenario is derived automatically"
+
+
+def probe_passes(w):
+    """interpreted mode only: wraps the consistency algorithms and re-executes the enabled propagators after every pass"""
+    import nucs.propagators.propagators as P
+    import nucs.solvers.consistency_algorithms as CA
+
+    found = set()
+    saved = list(CA.CONSISTENCY_ALG_FCTS)
+
+    def wrap(f):
+        def g(statistics, algorithms, var_bounds, param_bounds, dia, doa, pdi, pdo, pp, triggers, stack, ne, du, st, trig, addrs, dec):
+            top = int(st[0])
+            before = stack[top].copy()
+            status = f(statistics, algorithms, var_bounds, param_bounds, dia, doa, pdi, pdo, pp, triggers, stack, ne, du, st, trig, addrs, dec)
+            if status == 0:
+                return status
+            cur = stack[top]
+            if (cur[:, 0] < before[:, 0]).any() or (cur[:, 1] > before[:, 1]).any() or (cur[:, 0] > cur[:, 1]).any():
+                found.add("pass-grew-or-emptied-a-domain")
+            if bool((cur[:, 0] == cur[:, 1]).all()) != (status == 2):
+                found.add("solved-status-mismatch")
+            for p in range(len(algorithms)):
+                if not ne[top, p]:
+                    continue
+                vs, ve = int(var_bounds[p, 0]), int(var_bounds[p, 1])
+                doms = stack[top, pdi[vs:ve]] + pdo[vs:ve]
+                snap = doms.copy()
+                st2 = saved_cd[int(algorithms[p])](doms, pp[int(param_bounds[p, 0]) : int(param_bounds[p, 1])])
+                if st2 == 0:
+                    found.add("enabled-propagator-fails-at-exit")
+                elif int(algorithms[p]) != P.ALG_NO_SUB_CYCLE and (doms != snap).any():
+                    found.add("not-a-fixpoint-at-exit")
+            return status
+
+        return g
+
+    saved_cd = list(P.COMPUTE_DOMAINS_FCTS)
+    for i, f in enumerate(saved):
+        CA.CONSISTENCY_ALG_FCTS[i] = wrap(f)
+    try:
+        run_real(w)
+    finally:
+        CA.CONSISTENCY_ALG_FCTS[:] = saved
+    return found
+
+
+def ghost_stats(w):
+    """interpreted mode only: ghost counters by interposed wrappers, compared with the reported statistics"""
+    import nucs.heuristics.heuristics as H
+    import nucs.propagators.propagators as P
+    import nucs.solvers.backtrack_solver as BS
+    import nucs.solvers.consistency_algorithms as CA
+    import nucs.solvers.shaving_consistency_algorithm as SH
+
+    g = dict(filter=0, incons=0, entail=0, nochange=0, choice=0, bt=0, bc=0, depth=0)
+    saved = (list(P.COMPUTE_DOMAINS_FCTS), list(H.DOM_HEURISTIC_FCTS), list(CA.CONSISTENCY_ALG_FCTS), BS.backtrack, SH.bound_consistency_algorithm)
+
+    def wcd(f):
+        def h(dom, par):
+            before = dom.copy()
+            g["filter"] += 1
+            st = f(dom, par)
+            if st == 0:
+                g["incons"] += 1
+            else:
+                if st == 2:
+                    g["entail"] += 1
+                if (dom == before).all():
+                    g["nochange"] += 1
+            return st
+
+        return h
+
+    def wdh(f):
+        def h(params, stack, ne, du, st, idx):
+            g["choice"] += 1
+            r_ = f(params, stack, ne, du, st, idx)
+            g["depth"] = max(g["depth"], int(st[0]))
+            return r_
+
+        return h
+
+    def wca(i, f):
+        def h(*a):
+            if i == CA.CONSISTENCY_ALG_BC:
+                g["bc"] += 1
+            return f(*a)
+
+        return h
+
+    for i, f in enumerate(saved[0]):
+        P.COMPUTE_DOMAINS_FCTS[i] = wcd(f)
+    for i, f in enumerate(saved[1]):
+        H.DOM_HEURISTIC_FCTS[i] = wdh(f)
+    for i, f in enumerate(saved[2]):
+        CA.CONSISTENCY_ALG_FCTS[i] = wca(i, f)
+
+    def bt(*a):
+        r_ = saved[3](*a)
+        if r_:
+            g["bt"] += 1
+        return r_
+
+    BS.backtrack = bt
+
+    def bcs(*a):
+        g["bc"] += 1
+        return saved[4](*a)
+
+    SH.bound_consistency_algorithm = bcs
+    try:
+        sols, stats = run_real(w)
+    finally:
+        P.COMPUTE_DOMAINS_FCTS[:] = saved[0]
+        H.DOM_HEURISTIC_FCTS[:] = saved[1]
+        CA.CONSISTENCY_ALG_FCTS[:] = saved[2]
+        BS.backtrack = saved[3]
+        SH.bound_consistency_algorithm = saved[4]
+    bc_only = (w.get("cfg") or {}).get("cons", "bc") == "bc"
+    exp = {"PROPAGATOR_FILTER_NB": g["filter"], "PROPAGATOR_INCONSISTENCY_NB": g["incons"], "PROPAGATOR_ENTAILMENT_NB": g["entail"], "PROPAGATOR_FILTER_NO_CHANGE_NB": g["nochange"], "ALG_BC_NB": g["bc"]}
+    if bc_only:
+        exp.update({"SOLVER_CHOICE_NB": g["choice"], "SOLVER_BACKTRACK_NB": g["bt"], "SOLVER_CHOICE_DEPTH": g["depth"]})
+    if w.get("mode", "solve") in ("solve", "solve_q"):
+        exp["SOLVER_SOLUTION_NB"] = len(sols)
+    wrong = {k: (int(stats[k]), v) for k, v in exp.items() if int(stats[k]) != v}
+    if bc_only and w.get("mode", "solve") in ("solve", "solve_q") and w.get("partial") is None:
+        if int(stats["ALG_BC_NB"]) != 1 + int(stats["SOLVER_CHOICE_NB"]) + int(stats["SOLVER_BACKTRACK_NB"]):
+            wrong["law:passes=1+choices+backtracks"] = (int(stats["ALG_BC_NB"]), int(stats["SOLVER_CHOICE_NB"]), int(stats["SOLVER_BACKTRACK_NB"]))
+    return wrong
+
+
+_replay_solve_basic = replay_solve
+
+
+def replay_solve(r):  # noqa: F811
+    kind = r["kind"]
+    if r.get("prop") == "C08" and kind in ("pass-grew-or-emptied-a-domain", "solved-status-mismatch", "enabled-propagator-fails-at-exit", "not-a-fixpoint-at-exit"):
+        if not os.environ.get("NUMBA_DISABLE_JIT"):
+            return False, "pass-level probes need the interpreted mode"
+        found = probe_passes(r)
+        return kind in found, f"probe found {sorted(found)}"
+    if kind.startswith("counter-mismatch:"):
+        if not os.environ.get("NUMBA_DISABLE_JIT"):
+            return False, "ghost counters need the interpreted mode"
+        wrong = ghost_stats(r)
+        return kind[len("counter-mismatch:"):] in wrong, f"mismatches (reported, counted): {wrong}"
+    return _replay_solve_basic(r)
+
+
+HANDLERS = {"prop": replay_prop, "heur": replay_heur, "split": replay_split, "reducer": replay_reducer, "stack": replay_stack, "solve": replay_solve, "varheur": replay_varheur, "lemma": replay_lemma}
 
 
 def validate_prop(w):
